@@ -2056,12 +2056,17 @@ func (a *align) Concat(c Alignment) (err error) {
 	if a.Alphabet() != c.Alphabet() {
 		return errors.New("alignments do not have the same alphabet")
 	}
+	// (an empty alignment has no length: nothing to append)
+	clen := c.Length()
+	if clen < 0 {
+		clen = 0
+	}
 	a.IterateAll(func(name string, sequence []uint8, comment string) bool {
 		_, ok := c.GetSequenceChar(name)
 		if !ok {
 			// This sequence is present in a but not in c
 			// So we append full gap sequence to a
-			err = a.appendToSequence(name, []uint8(strings.Repeat(string(GAP), c.Length())))
+			err = a.appendToSequence(name, []uint8(strings.Repeat(string(GAP), clen)))
 		}
 		return err != nil
 	})
